@@ -3,12 +3,16 @@
    decoder(x, attribute=False) is decoder(x, attribute=True) with the attribution erased - same
    outcome (value or exception class), same string, same output indices and tokens.
    Truthfulness of the decoder's entries is a theorem too (C17_decoder_attribution_truthful).
-   Not theorems (judged per input on every run): the encoder side (independent tokenisations in the
-   harness; exact lists compared with the model). *)
+   Proved for the ENCODER as well, all SMILES / tables / strict (proofs/EncErase.v): erasing the attribution of
+   the graph commutes with every operation of the reader, of kekulize, of the strict check, of the inversion pass and
+   of the emitting walk, so encoder(s, attribute=False) is encoder(s, attribute=True) with the attribution erased -
+   same outcome, same string, same indices and tokens (C17_encoder_attribute_erased, C17_encoder_same_string).
+   Not a theorem (judged per input on every run): that the encoder attributes each SELFIES atom symbol to the SMILES
+   atom token it was made from (independent tokenisations in the harness; exact lists compared with the model). *)
 From Coq Require Import String List ZArith NArith Bool.
 Import ListNotations.
 From Selfies Require Import Base Generated Atoms Grammar Decoder PySet Matching Smiles Kekulize Encoder
-  IndexSpec IndexCode Reader DocGrammar RoundTrip EncoderFacts PureFacts AttrFacts AttrOut AttrIn AttrFinal.
+  IndexSpec IndexCode Reader DocGrammar RoundTrip EncoderFacts PureFacts AttrFacts AttrOut AttrIn AttrFinal EncErase.
 Local Open Scope string_scope.
 
 Theorem C17_offsets_partial :
@@ -67,8 +71,27 @@ Example C17_example :
   | Err _ => false end = true.
 Proof. vm_compute. reflexivity. Qed.
 
+(* the encoder: attribute=False is attribute=True with the attribution erased *)
+Theorem C17_encoder_attribute_erased : forall T s strict,
+  encoder T s strict false = rmap (fun p => (fst p, map era_map (snd p))) (encoder T s strict true).
+Proof. exact encoder_attribute_erased. Qed.
+
+Corollary C17_encoder_same_string : forall T s strict,
+  match encoder T s strict true, encoder T s strict false with
+  | Ok (x, mx), Ok (y, my) => x = y /\ map am_index mx = map am_index my /\ map am_token mx = map am_token my
+  | Err e1, Err e2 => e1 = e2
+  | _, _ => False
+  end.
+Proof.
+  intros T s strict. rewrite (encoder_attribute_erased T s strict).
+  destruct (encoder T s strict true) as [[x mx]|e]; cbn [rmap fst snd]; [|reflexivity].
+  split; [reflexivity|]. rewrite !map_map. split; apply map_ext; reflexivity.
+Qed.
+
 Print Assumptions C17_offsets_partial.
 Print Assumptions C17_decoder_observation_only_partial.
 Print Assumptions C17_decoder_same_string.
 Print Assumptions C17_decoder_same_error.
 Print Assumptions C17_decoder_attribution_truthful.
+Print Assumptions C17_encoder_attribute_erased.
+Print Assumptions C17_encoder_same_string.
